@@ -76,7 +76,7 @@ theorem closed_respects : Respects env (Closed : RS σ ω → RS σ ω → Prop)
     intro rs h
     simp [raiseMeta, M.bind, M.emit, M.get, h, M.forEach, M.pure]
   contract := contract_of_prims env closed_pre
-    (fun f hf rs h => ⟨by simp only [M.modify]; rw [(hf rs.st).2]; exact h, rfl⟩)
+    (fun f hf rs h => ⟨by simp only [M.modify]; rw [(hf rs.st).2.1]; exact h, rfl⟩)
     (fun k o i e r rs h => ⟨h, rfl⟩)
 
 /-- **Running an interpreter that nothing is attached to touches nothing but itself** — whatever
